@@ -39,7 +39,8 @@ RULE = ("Hypothesis-generated cases, five clauses. ellipsoid: (ellipsoid, latitu
         "displacement (unit vectors) against the horizontal-parallax bound. Non-trivial: "
         "|lat| > 89 or < 1 deg, user ellipsoid, a degenerate or constructed pair (anything but "
         "'general'), distance < 0.01 AU or > 100 AU; distinct = distinct case."
-        " Every other user ellipsoid is reached by switching an Earth object that served another ellipsoid with set(); the prior ellipsoid is unrelated, or differs in the angular velocity only, or in the flattening only.")
+        " Every other user ellipsoid is reached by switching an Earth object that served another ellipsoid with set(); the prior ellipsoid is unrelated, or differs in the angular velocity only, or in the flattening only."
+        " Half of the Angle latitudes of the ellipsoid clause are objects that first served another latitude in the same functions of the same Earth object and were then moved with set().")
 ASSUMPTIONS = [
     "semidiameter correction of parallax_ecliptical: physical envelope 1.5 x/(1-x) sd plus the double-precision forward error 1e-14/cos(latitude) of the quotient of two quantities of size cos(latitude) (matters only within ~1e-6 deg of an ecliptic pole)",
     "identities of the ellipsoid clause are held to 1e-12 relative (height term 1e-14 absolute; "
